@@ -86,6 +86,10 @@ fn check_c12_history(ctx: &mut Ctx, case: &ProjectCase) {
     for s in model::sources(&case.files) {
         flipped.files.insert(s.clone(), flip_endings(&case.files[&s]));
     }
+    // (half of the histories rebuild with the only-if-needed mode)
+    if case.hash() % 2 == 0 {
+        flipped.mode = Mode::InMemoryBuild;
+    }
     let second = crate::props::common::run_project_at(ctx, &flipped, &root, false);
     ctx.count("histories_with_converted_source_endings", 1);
     if second.outcome.verdict.is_ok() && second.expect.out_of_domain.is_none() {
@@ -207,6 +211,14 @@ fn run_c12(ctx: &mut Ctx) {
         if i % 5 == 2 {
             check_c12_other_modes(ctx, &case);
         }
+        if i % 100 == 7 {
+            // CRLF and LF sources whose names / directories are not valid UTF-8
+            let (findings, cj) = crate::props::rawnames::scenario(ctx, &mut r);
+            for f in findings.iter().filter(|f| f.class == "naming" && f.msg.contains("wrong bytes")) {
+                ctx.violation("C12:bare-lf-or-cr-in-crlf-file", format!("source with a non-UTF-8 path: {}", f.msg), cj.clone());
+            }
+            ctx.distinct.insert(hash_str(&format!("raw{i}{}", ctx.shard)));
+        }
         if i == 0 {
             ctx.sample(|| json!({"source": String::from_utf8_lossy(&case.files["le.txt.txtpp"])}));
         }
@@ -214,6 +226,16 @@ fn run_c12(ctx: &mut Ctx) {
 }
 
 fn replay_c12(ctx: &mut Ctx, v: &Value) {
+    if v["kind"].as_str() == Some("raw-names") {
+        let mut r = StdRng::seed_from_u64(3);
+        for _ in 0..10 {
+            let (findings, cj) = crate::props::rawnames::scenario(ctx, &mut r);
+            for f in findings.iter().filter(|f| f.class == "naming" && f.msg.contains("wrong bytes")) {
+                ctx.violation("C12:bare-lf-or-cr-in-crlf-file", f.msg.clone(), cj.clone());
+            }
+        }
+        return;
+    }
     check_c12(ctx, &ProjectCase::from_json(v));
     check_c12_other_modes(ctx, &ProjectCase::from_json(v));
 }
@@ -422,6 +444,26 @@ fn check_c13_requested(ctx: &mut Ctx, files: &Files, inputs: &[String], watched:
             return;
         }
         outs.push((res.after.files.get(watched).map(|e| e.bytes.clone()), res.outcome.verdict.clone()));
+    }
+    // history on one directory: build with one setting, build again with the other while naming
+    // only the top file: the dependency must be regenerated with the current setting
+    if outs.len() == 2 && outs[0].1.is_ok() && outs[1].1.is_ok() {
+        for (first, second) in [(true, false), (false, true)] {
+            ctx.scratch.reuse(&root);
+            let mut c = ProjectCase::simple(files.clone());
+            c.inputs = inputs.to_vec();
+            c.recursive = false;
+            c.requested = Some(vec![format!("{}.txtpp", inputs[0])]);
+            c.trailing = first;
+            let _ = run_project_at(ctx, &c, &root, false);
+            c.trailing = second;
+            let res = run_project_at(ctx, &c, &root, false);
+            let got = res.after.files.get(watched).map(|e| e.bytes.clone());
+            let want = &outs[if second { 0 } else { 1 }].0;
+            if res.outcome.verdict.is_ok() && &got != want {
+                ctx.violation("C13:dependency:stale-after-option-change", format!("{watched} is built only as a dependency of {inputs:?}; after a build with trailing={first} and a second build with trailing={second} in the same directory it is {} (a fresh build with trailing={second} gives {})", show(got.as_deref().unwrap_or(b"")), show(want.as_deref().unwrap_or(b""))), json!({"files": crate::util::files_json(files), "inputs": inputs, "watched": watched}));
+            }
+        }
     }
     ctx.scratch.discard(&root);
     ctx.count("dependency_only_cases", 1);
